@@ -92,7 +92,7 @@ def riscv_cases(ctx, classes):
             full = ctx.thorough and (hi - lo) // stepv <= 4096
             if full:
                 allv = [v for v in range(lo, hi, stepv) if v not in excl]
-                few = tuples if len(tuples) <= 24 else [tuples[0], tuples[-1]] + ctx.rng.sample(tuples, 22)
+                few = tuples if len(tuples) <= 6 else [tuples[0], tuples[-1]] + ctx.rng.sample(tuples, 4)
                 for t in few:
                     for v in allv:
                         cases.append((name, t[0], t[1], t[2], v))
@@ -244,8 +244,12 @@ def validate_spec(ctx, real_encodings):
     rng = ctx.rng
     n = 60000 if ctx.thorough else 2500
     words32, words16 = [], []
-    for bs in real_encodings:
-        (words32 if len(bs) == 4 else words16).append(bytes(bs))
+    uniq_real = list(dict.fromkeys(bytes(b) for b in real_encodings))
+    cap = 60000 if ctx.thorough else 6000
+    if len(uniq_real) > cap:
+        uniq_real = rng.sample(uniq_real, cap)
+    for bs in uniq_real:
+        (words32 if len(bs) == 4 else words16).append(bs)
     opcodes = [0x37, 0x17, 0x6f, 0x67, 0x63, 0x03, 0x23, 0x13, 0x33, 0x0f, 0x73]
     for _ in range(n):
         w = rng.getrandbits(32)
